@@ -259,7 +259,9 @@ func decodeFuncFor(ty reflect.Type) func(d *Decoder, tag int, value reflect.Valu
 	if f, ok := decodeFuncsCache.Load(ty); ok {
 		return f.(func(d *Decoder, tag int, value reflect.Value) error)
 	}
+	vp("dec.miss", ty)
 	f := decodeFunc(ty)
+	vp("dec.store", ty)
 	decodeFuncsCache.Store(ty, f)
 	return f
 }
